@@ -13,6 +13,10 @@ type L234 struct {
 	SrcMAC  Hex    `json:"smac,omitempty"`
 	HasVlan bool   `json:"vlan,omitempty"`
 	TCI     uint16 `json:"tci,omitempty"`
+	// StackTags: further tags behind the first one (TPID<<16 | TCI each: 802.1Q in 802.1Q, 802.1ad, vendor TPIDs);
+	// CutAtL2: the sampled header ends right behind the last tag. Robustness checks only: the collector decodes one tag
+	StackTags []uint32 `json:"stack_tags,omitempty"`
+	CutAtL2   bool     `json:"cut_at_l2,omitempty"`
 
 	IPVer int `json:"ipver"` // 4 | 6
 	// IPv4
@@ -71,6 +75,13 @@ func (p *L234) Bytes() []byte {
 		if p.HasVlan {
 			b = put16(b, 0x8100)
 			b = put16(b, p.TCI)
+		}
+		for _, tg := range p.StackTags {
+			b = put16(b, uint16(tg>>16))
+			b = put16(b, uint16(tg))
+		}
+		if p.CutAtL2 {
+			return b // the sampled header ends right behind the last tag
 		}
 		b = put16(b, p.EtherType())
 	}
@@ -256,6 +267,20 @@ func genV6(t *rapid.T, label string) Hex {
 // WeirdL4 turns the packet into one the collector has no transport decoder for: another IP protocol number or an
 // IPv6 extension-header chain (next header and header-extension length octets chosen from boundary values, the
 // rest zeros or the payload as it is). Only for robustness checks: outside C07's domain (TCP/UDP/ICMP).
+// WeirdL2 turns the packet into an Ethernet frame with a stack of 1..15 VLAN tags, in half of the draws cut right
+// behind the last tag. Only for robustness checks (the collector decodes a single tag).
+func WeirdL2(t *rapid.T, p *L234) {
+	p.Proto, p.HasVlan = 1, true
+	if len(p.DstMAC) != 6 {
+		p.DstMAC, p.SrcMAC = Hex{2, 0, 0, 0, 0, 1}, Hex{2, 0, 0, 0, 0, 2}
+	}
+	for i, n := 0, rapid.IntRange(1, 15).Draw(t, "ntags"); i < n; i++ {
+		tpid := rapid.SampledFrom([]uint32{0x8100, 0x8100, 0x88a8, 0x9100}).Draw(t, "tpid")
+		p.StackTags = append(p.StackTags, tpid<<16|uint32(rapid.Uint16().Draw(t, "stci")))
+	}
+	p.CutAtL2 = rapid.Bool().Draw(t, "cutatl2")
+}
+
 func WeirdL4(t *rapid.T, p *L234) {
 	ext := []uint8{0, 43, 44, 60, 51, 135, 139, 140}
 	if p.IPVer == 6 && rapid.IntRange(0, 2).Draw(t, "extchain") > 0 {
